@@ -228,8 +228,9 @@ pub fn run_isolated(cases: &[Value], from: usize, out_path: &str, mut f: impl Fn
             o.insert("max_alloc".to_string(), Value::from(alloc_max()));
             o.insert("ms".to_string(), Value::from(ms));
         }
-        serde_json::to_writer(&mut out, &r).unwrap();
-        out.write_all(b"\n").unwrap();
+        let mut line = serde_json::to_vec(&r).unwrap();
+        line.push(b'\n');
+        out.write_all(&line).unwrap(); // one write per result (the file is unbuffered on purpose: a crash loses nothing)
         out.flush().unwrap();
         {
             let mut so = stdout.lock();
